@@ -103,7 +103,9 @@ class C03(Prop):
         txt = st.fixed_dictionaries({"mode": st.just("parsed"),
                                      "design": gen_ir.recipes(self.cfg(tier, False)),
                                      "stream": st.lists(st.integers(0, 63), min_size=8, max_size=40)})
-        return st.one_of(api, api, txt)
+        # "pre": the netlist may be the product of another feature before it is written
+        pre = st.sampled_from(["none", "none", "none", "clone", "uniquify"])
+        return st.tuples(st.one_of(api, api, txt), pre).map(lambda t: dict(t[0], pre=t[1]))
 
     def fixed_cases(self, tier):
         limit = 10000 if tier == "quick" else 10 ** 9
@@ -136,6 +138,18 @@ class C03(Prop):
         else:
             nl = gen_ir.build(case["design"], policy=mode.split("-")[1]).netlist
             sdn.namespace_manager.default = "DEFAULT"
+        if case.get("pre") in ("clone", "uniquify") and nl.top_instance is not None:
+            try:
+                if case["pre"] == "clone":
+                    nl = nl.clone()
+                else:
+                    import spydrnet.uniquify as U
+                    U.MOD_NAME_UID = 0
+                    U.uniquify(nl)
+                res.label("netlist-is-product-of-" + case["pre"])
+            except Exception:  # noqa (C07/C08's business)
+                res.label("pre-transform-raised")
+                return res
         if not model.library_deps_acyclic(nl):
             res.label("cyclic-library-dependencies(out of domain)")
             return res
